@@ -214,7 +214,32 @@ def p_true(x):
     return True
 
 
-PREDICATES = {"p_lt": p_lt, "p_eq": p_eq, "p_pos": p_pos, "p_true": p_true}
+@symbol
+@dataclass(eq=False)
+class _QA:                # classes of their own for the query that p_qge2 runs inside its body
+    n: int = 0
+
+
+@dataclass(eq=False)
+class _QB(_QA):
+    pass
+
+
+_QOBJS = [_QA(1), _QB(2), _QA(0)]
+
+
+@predicate
+def p_qge2(v):
+    """A user predicate whose body builds and evaluates a query of its own: is there a _QB with n <= v, i.e. v >= 2."""
+    from entity_query_language import let, an, entity, symbolic_mode, HasType
+    PredicatePlan.tick()
+    with symbolic_mode():
+        p = let(_QA, domain=_QOBJS)
+        q = an(entity(p, HasType(p, _QB), p.n <= v))
+    return len(list(q.evaluate())) > 0
+
+
+PREDICATES = {"p_lt": p_lt, "p_eq": p_eq, "p_pos": p_pos, "p_true": p_true, "p_qge2": p_qge2}
 
 
 @dataclass(eq=False)
